@@ -339,6 +339,13 @@ class Exec:
             if init.get("k") == "construct":
                 args = [self.ev(a, out) for a in init.get("args", [])]
                 self.emit_call(init, init.get("callee", "?"), args, out, this=sym.addr(cell))
+            elif init.get("k") == "initlist" and ("extent" in dv or "vla" in dv):
+                # T a[] = {x, y, ...}: one remembered element per initialiser (the array name itself stays an address)
+                vals = [self.ev(a, out) for a in init.get("args", [])]
+                out.append({"e": "store", "lv": cell, "op": "=", "val": ("call", "{}", tuple(vals)), "l": dv["l"]})
+                for k_, val in enumerate(vals):
+                    out.append({"e": "store", "lv": sym.idx(cell, I(k_)), "op": "=", "val": val, "l": dv["l"], "element_init": True})
+                    self.remember(sym.idx(cell, I(k_)), val)
             else:
                 val = self.ev(init, out)
                 out.append({"e": "store", "lv": cell, "op": "=", "val": val, "l": dv["l"]})
@@ -639,6 +646,13 @@ class Exec:
                     # behaviour for pointers and signed counters, and is not considered)
                     cs = sym.const_value(eff_step)
                     cmpop = "<" if cs == 1 else ">" if cs == -1 else None
+            if cmpop == "<" and hi is not None and hi[0] == "cond" and hi[1][0] == "op":
+                # i < max(X, lo), written  X > lo ? X : lo  : the loop is empty whenever X <= lo, so the bound is X
+                cc, ca, cb = hi[1], hi[2], hi[3]
+                if cc[1] in (">", ">=") and ca == cc[2] and cb == cc[3] and cb == eff_lo:
+                    hi = ca
+                elif cc[1] in ("<", "<=") and cb == cc[2] and ca == cc[3] and ca == eff_lo:
+                    hi = cb
             if cmpop is not None and not sym.contains(hi, lv):
                 b = []
                 st = self.block(body, b)
@@ -1082,11 +1096,12 @@ class Exec:
                 this = sym.addr(args[0]) if args else None
                 args = args[1:]
         nbefore = len(out)
+        swapped = (self.load(byref[0]), self.load(byref[1])) if name == "std::swap" and len(byref) == 2 else None
         r = self.emit_call(e, name, args, out, this=this)
         if byref and not any(x.get("e") == "inlined" for x in out[nbefore:]):
             # the callee may assign through its reference parameters
             if name == "std::swap" and len(byref) == 2:
-                a0, a1 = self.load(byref[0]), self.load(byref[1])
+                a0, a1 = swapped
                 for lvt, val in ((byref[0], a1), (byref[1], a0)):
                     out.append({"e": "store", "lv": lvt, "op": "=", "val": val, "l": e["l"], "byref": name})
                     self.remember(lvt, val)
